@@ -1152,8 +1152,8 @@ def absorb(ctx: Ctx, out: dict, ask: bool = True) -> None:
     try:
         answers = ctx.driver.ask([req for _, req, _, _ in out["reqs"]])
     except leanio.LeanError as e:
-        ctx.tie_fail(f"Lean driver failed: {e}", {"log": e.log[-2000:]})
-        return
+        # the driver process itself did not run (toolchain / shared Driver.lean problem): exit 2, not a verdict
+        raise RuntimeError(f"Lean driver failed: {e}\n{e.log[-2000:]}")
     for (what, req, impl, case), ans in zip(out["reqs"], answers):
         ctx.compare(f"C18 {what}", impl, ans, {**_rp(case), "request": req})
         ctx.count("tie", what.split("(")[0])
